@@ -34,8 +34,13 @@ def make_substitution(ccls, case_map=None):
             ns["old"] = OldNS(dict(ns))
             ns["case"] = I.lift(callee_case)
             for name, f in contract_functions(ccls, "requires"):
-                t = I.truthy(I.spec_call(f, bind_by_name(f, ns)))
-                path.oblige(f"{I.unit_label}/{site}.{name}", z3.BoolVal(t) if isinstance(t, bool) else t)
+                v = I.spec_call(f, bind_by_name(f, ns))
+                cell = path.cell(v) if isinstance(v, Ref) else None
+                named = list(cell.d.items()) if isinstance(cell, DictCell) else [(None, v)]   # a dict = named pre-conditions
+                for cname, c in named:
+                    t = I.truthy(c)
+                    path.oblige(f"{I.unit_label}/{site}.{name}" + (f".{cname}" if cname is not None else ""),
+                                z3.BoolVal(t) if isinstance(t, bool) else t)
             for name, f in contract_functions(ccls, "raises"):
                 d = I.spec_call(f, bind_by_name(f, ns))
                 for k, c in path.cell(d).d.items():
